@@ -230,12 +230,18 @@ Theorem C03_violation_duplicate_named : forall bs n positional named names p id 
   Err (PError (DuplicatedNamedArgument id) (after_blank bs p1) (S (after_blank bs p1)) None) (after_blank bs p1).
 Proof. exact violation_duplicate_named. Qed.
 
-Theorem C03_violation_forbidden_callee : forall bs n ol p b id p1 args p2,
+Theorem C03_violation_forbidden_callee : forall bs n p b id p1 args p2,
   byte_at bs p = Some b -> is_ascii_alphabetic b = true ->
   get_identifier_unchecked bs (S p) = Ok id p1 -> get_call_arguments bs n p1 = Ok (Some args) p2 ->
   is_callee id = false ->
-  get_inline_expression bs (S n) ol p = Err (PError ForbiddenCallee p2 (S p2) None) p2.
+  get_inline_expression bs (S n) false p = Err (PError ForbiddenCallee p2 (S p2) None) p2.
 Proof. exact violation_forbidden_callee. Qed.
+
+(* the value of a named argument is a literal: anything else (message/function/variable reference, placeable) is rejected *)
+Theorem C03_violation_named_argument_not_literal : forall bs n p b,
+  byte_at bs p = Some b -> N.eqb b 34 = false -> is_ascii_digit b = false -> N.eqb b 45 = false ->
+  get_inline_expression bs (S n) true p = Err (PError ExpectedLiteral p (S p) None) p.
+Proof. exact violation_named_argument_not_literal. Qed.
 
 Theorem C03_violation_unterminated_string : forall bs n p, byte_at bs p = Some c_lf ->
   string_loop bs (S n) p = Err (PError UnterminatedStringLiteral p (S p) None) p.
@@ -429,6 +435,7 @@ Print Assumptions C03_violation_term_attribute_as_placeable.
 Print Assumptions C03_violation_positional_after_named.
 Print Assumptions C03_violation_duplicate_named.
 Print Assumptions C03_violation_forbidden_callee.
+Print Assumptions C03_violation_named_argument_not_literal.
 Print Assumptions C03_violation_unterminated_string.
 Print Assumptions C03_violation_bad_escape.
 Print Assumptions C03_violation_unbalanced_brace.
